@@ -241,7 +241,7 @@ pub fn run(ctx: &Ctx) -> i32 {
     );
     let gates = ctx.gates_for("C02");
     let off = gates.off_list();
-    let cases = ctx.tier.pick(24_000, 400_000);
+    let cases = ctx.tier.pick(60_000, 1_000_000);
     let (per_kind, all_limit) = ctx.tier.pick((2, 40), (4, 120));
     let out = run_tapes("C02", ctx.seed, ctx.threads, cases, 900, |tape, stats, counting| {
         let g = Gates::with_off(off.clone());
